@@ -21,6 +21,7 @@ def run(rep, idx, tier):
     rep.require("C05.5", 2)
     rep.require("C05.7", 2)
     rep.require("C05.8", 3)
+    rep.require("C05.9", 3)
     c = get_ctx(idx, "csr:Multiplexer.elaborate")
     rep.analysed(c.fi.site)
     rep.count("drivers", len(c.t.drivers))
@@ -80,6 +81,7 @@ def run(rep, idx, tier):
     overlaps_taint(rep, idx)
     from . import glue
     glue.shadow_hash(rep, idx, "C05.8")
+    glue.chunk_width(rep, "C05.9", idx, c, r.SH)
 
 
 def overlaps_taint(rep, idx):
